@@ -2,6 +2,7 @@
 //! (S->I) and records executions of the real code for TLC validation (I->S).
 mod backends;
 mod r_generic;
+mod r_guard;
 mod r_iseq;
 mod r_iter;
 mod r_mm;
@@ -103,6 +104,11 @@ fn main() {
         "replay-alloc-bytes" => {
             let vs = read_ndjson(args.val("--in").expect("--in"));
             r_iter::alloc_probe(&vs, &rep, threads, seed);
+        }
+        "replay-guard" => {
+            let vs = read_ndjson(args.val("--in").expect("--in"));
+            let tmp = args.val("--tmp").unwrap_or("/tmp/verif-iso").to_string();
+            r_guard::replay(&vs, &rep, threads, seed, &tmp, args.num("--lifts", 3) as usize);
         }
         "replay-iter" => {
             let vs = read_ndjson(args.val("--in").expect("--in"));
